@@ -83,8 +83,11 @@ class Node:
 		rsp = self.ctrl_raw(("CMD " + text + "\0").encode())
 		if len(rsp) != 1:
 			raise common.HarnessError("expected one reply to %r, got %r" % (text, rsp))
-		parts = rsp[0].rstrip(b"\0").decode().split(" ")
-		return int(parts[2])
+		try:
+			parts = rsp[0].rstrip(b"\0").decode().split(" ")
+			return int(parts[2])
+		except (ValueError, IndexError, UnicodeDecodeError):
+			raise common.HarnessError("reply to %r is not 'RSP <verb> <status> ...': %r" % (text, rsp[0][:60]))
 
 	def data_raw(self, payload):
 		""" Send one datagram to the DATA socket and run the real receive path.
@@ -221,8 +224,17 @@ def restore_time():
 def ctrl_if_time_virtual():
 	""" FAKE_TRXC_DELAY makes ctrl_if sleep before replying: keep that virtual. """
 	import ctrl_if
-	ctrl_if.time = vclock.VTime()
-	return ctrl_if.time
+	import time as real
+	vt = vclock.VTime()
+	n = 0
+	for name, val in list(vars(ctrl_if).items()):
+		if val is real or isinstance(val, vclock.VTime):
+			setattr(ctrl_if, name, vt)
+			n += 1
+		elif val is real.sleep or getattr(val, "__self__", None).__class__ is vclock.VTime and getattr(val, "__name__", "") == "sleep":
+			setattr(ctrl_if, name, vt.sleep)
+			n += 1
+	return vt if n else None
 
 
 _restore_time_orig = restore_time
@@ -232,4 +244,8 @@ def restore_time():
 	import time
 	import ctrl_if
 	clck_gen.time = time
-	ctrl_if.time = time
+	for name, val in list(vars(ctrl_if).items()):
+		if isinstance(val, vclock.VTime):
+			setattr(ctrl_if, name, time)
+		elif getattr(val, "__self__", None).__class__ is vclock.VTime:
+			setattr(ctrl_if, name, time.sleep)
